@@ -547,6 +547,14 @@ func TestVerifC11Batch(t *testing.T) {
 		sc = base()
 		sc.Srv.Stdout, sc.ServerFault = []byte{0x7f, 0xff, 0xff, 0xff, 1, 2, 3}, "response-oversize"
 		run(sc)
+		// a complete, well-formed answer that is merely larger than the 1 MiB a server may send: 1 MiB + a little, 2 MiB, 5 MiB
+		for _, extra := range []int{1, 1 << 20, 4 << 20} {
+			sc = base()
+			big := vfServerResponseBytes("127.0.0.1", 1234, bytes.Repeat([]byte("C"), 1<<20+extra))
+			sc.Srv.Stdout, sc.ServerFault = big, "response-oversize"
+			sc.Srv.Desc = fmt.Sprintf("well-formed answer of %d bytes", len(big)-4)
+			run(sc)
+		}
 		sc = base()
 		sc.Srv.Stdout, sc.ServerFault = []byte{0, 0, 0, 6, 0xff, 0xff, 0xff, 0xff, 0xff, 0xff}, "response-garbage"
 		run(sc)
